@@ -11,10 +11,10 @@ AlphaMirror == Both({"empty", "field", "const", "marker"}) \cup Plain({"blank", 
                  "sealed", "extent", "print", "offq"})
 \* error-location focus
 AlphaErrors == Both({"empty", "badconst"}) \cup Plain({"blank", "field", "const", "union", "offq", "sealed",
-                 "extent", "assertfalse", "undef", "syntax", "print", "marker", "mlprint"})
+                 "extent", "assertfalse", "undef", "syntax", "print", "marker", "mlprint", "esprint"})
 \* everything
 AlphaAll == Both({"empty", "field", "const", "pad", "marker", "badconst", "sealed", "print"}) \cup
-            Plain({"blank", "union", "deprecated", "extent", "assert", "offq", "assertfalse", "undef", "syntax", "mlprint"})
+            Plain({"blank", "union", "deprecated", "extent", "assert", "offq", "assertfalse", "undef", "syntax", "mlprint", "esprint"})
 \* identifier scope: constants of the same name in the request and the response part
 AlphaScope == Plain({"empty", "kdef", "kuse", "kprint", "marker", "sealed"})
 AfterFail == { L("empty", FALSE), L("field", FALSE), L("syntax", FALSE) }
